@@ -42,7 +42,7 @@ class _Skip(Exception):
 
 class SubCheck:
     def __init__(self, name, run, strategy=None, cases=None, examples=(200, 2000), shards=(1, 16),
-                 doc='', floors=None):
+                 doc='', floors=None, shrink=True):
         assert (strategy is None) != (cases is None)
         self.name = name
         self.run = run
@@ -51,6 +51,7 @@ class SubCheck:
         self.examples = {'quick': examples[0], 'thorough': examples[1]}
         self.shards = {'quick': shards[0], 'thorough': shards[1]}
         self.doc = doc
+        self.shrink = shrink  # False for expensive (SDP) sub-checks: the shrinker would need minutes per candidate
         self.floors = floors or {}  # label -> minimum fraction of evaluations (generator health)
 
 
@@ -251,7 +252,7 @@ class _Fail(Exception):
 def run_hypothesis(ctx, sub, seed, max_examples, relax_filter=False):
     """One Hypothesis run of a sub-check; returns shrunk failure dict or None."""
     import hypothesis
-    from hypothesis import given, settings, HealthCheck, seed as hseed
+    from hypothesis import given, settings, HealthCheck, Phase, seed as hseed
     suppress = [HealthCheck.too_slow, HealthCheck.data_too_large]
     if relax_filter:
         suppress.append(HealthCheck.filter_too_much)
@@ -260,7 +261,8 @@ def run_hypothesis(ctx, sub, seed, max_examples, relax_filter=False):
 
     @hseed(seed)
     @settings(max_examples=max_examples, deadline=None, database=None, report_multiple_bugs=False,
-              suppress_health_check=suppress, print_blob=False)
+              suppress_health_check=suppress, print_blob=False,
+              phases=(tuple(Phase) if sub.shrink else (Phase.explicit, Phase.reuse, Phase.generate)))
     @given(case=sub.strategy(ctx.tier))
     def test(case):
         r = execute(ctx, sub, case)
